@@ -1297,6 +1297,7 @@ int32 matrixRegisterSession(ssl_t *ssl)
     g_sessionTable[i].minVer = psEncodeVersionMin(GET_NGTD_VER(ssl));
 
     g_sessionTable[i].extendedMasterSecret = ssl->extFlags.extended_master_secret;
+    g_sessionTable[i].clientAuth = (ssl->flags & SSL_FLAGS_CLIENT_AUTH) ? 1 : 0;
     ssl->sessionCacheRef = 1;
 
     psUnlockMutex(&g_sessionTableLock);
@@ -1430,6 +1431,15 @@ int32 matrixResumeSession(ssl_t *ssl)
     }
     if (g_sessionTable[i].extendedMasterSecret == 1 &&
         ssl->extFlags.extended_master_secret == 0)
+    {
+        psUnlockMutex(&g_sessionTableLock);
+        return PS_FAILURE;
+    }
+
+    /* A connection that demands client authentication does not resume a
+        session whose client was never asked for a certificate (the cache is
+        shared by every server session of the process) */
+    if ((ssl->flags & SSL_FLAGS_CLIENT_AUTH) && !g_sessionTable[i].clientAuth)
     {
         psUnlockMutex(&g_sessionTableLock);
         return PS_FAILURE;
@@ -1788,8 +1798,10 @@ int32 matrixCreateSessionTicket(ssl_t *ssl, unsigned char *out, int32 *outLen)
     *c = psEncodeVersionMin(GET_NGTD_VER(ssl)); c++;
     *c = (ssl->cipher->ident & 0xFF00) >> 8; c++;
     *c = ssl->cipher->ident & 0xFF; c++;
-    /* Need to track if original handshake used extended master secret */
-    *c = ssl->extFlags.extended_master_secret; c++;
+    /* Need to track if original handshake used extended master secret
+        (bit 0) and whether it demanded client authentication (bit 1) */
+    *c = (ssl->extFlags.extended_master_secret ? 0x1 : 0x0) |
+         ((ssl->flags & SSL_FLAGS_CLIENT_AUTH) ? 0x2 : 0x0); c++;
 
     Memcpy(c, ssl->sec.masterSecret, SSL_HS_MASTER_SIZE);
     c += SSL_HS_MASTER_SIZE;
@@ -2010,12 +2022,19 @@ int32 matrixUnlockSessionTicket(ssl_t *ssl, unsigned char *in, int32 inLen)
     /* First round of "require" testing can be done here.  If server is
         set to require extended master secret and this ticket DOES NOT have it
         then we can stop resumption right now */
-    if (*enc == 0x0 && ssl->extFlags.require_extended_master_secret == 1)
+    if ((*enc & 0x1) == 0x0 && ssl->extFlags.require_extended_master_secret == 1)
     {
         psTraceErrr("Ticket and master secret derivation methods differ\n");
         return PS_FAILURE;
     }
-    ssl->extFlags.require_extended_master_secret = *enc; enc++;
+    /* Same rule as for the session cache: no resumption of a session that
+        never authenticated its client on a connection that demands it */
+    if ((*enc & 0x2) == 0x0 && (ssl->flags & SSL_FLAGS_CLIENT_AUTH))
+    {
+        psTraceErrr("Ticket of a session without client authentication\n");
+        return PS_FAILURE;
+    }
+    ssl->extFlags.require_extended_master_secret = *enc & 0x1; enc++;
 
     /* Set aside masterSecret */
     Memcpy(ssl->sid->masterSecret, enc, SSL_HS_MASTER_SIZE);
